@@ -61,4 +61,74 @@ pub proof fn lemma_nonboundary_not_ascii(bytes: Seq<u8>, i: int)
     if bytes[i] < 0x80u8 { lemma_ascii_is_boundary(bytes, i); }
 }
 
+// ------------------------------------------------------------------ finder vocabulary (L0)
+/// q is the line break `find_next_line_break_pos(.., p, pause)` must return
+pub open spec fn next_ok(b: Seq<u8>, p: int, q: int, pause: bool) -> bool {
+    &&& 0 < p <= q < b.len()
+    &&& is_lf(b[q])
+    &&& if pause { all_blank(b, p, q) } else { no_lf(b, p, q) }
+}
+
+/// q is the line break `find_prev_line_break_pos(.., p, pause)` must return (byte 0 is never examined)
+pub open spec fn prev_ok(b: Seq<u8>, p: int, q: int, pause: bool) -> bool {
+    &&& 0 < q < p <= b.len()
+    &&& is_lf(b[q])
+    &&& if pause { all_blank(b, q + 1, p) } else { no_lf(b, q + 1, p) }
+}
+
+/// a byte the finders step over: blank, or not the first byte of a character
+pub open spec fn skippable(b: Seq<u8>, k: int) -> bool { is_blank(b[k]) || !cb(b, k) }
+
+/// q is the position `find_next_char_pos(.., p)` must return
+pub open spec fn charpos_ok(b: Seq<u8>, p: int, q: int) -> bool {
+    &&& 0 < p <= q < b.len()
+    &&& cb(b, q) && !is_blank(b[q])
+    &&& forall|k: int| p <= k < q ==> skippable(b, k)
+}
+
+pub proof fn lemma_bytes_valid(content: &str)
+    ensures valid_utf8(content.spec_bytes()),
+{
+    encode_utf8_valid_utf8(content@);
+}
+
+
+pub proof fn lemma_next_unique(b: Seq<u8>, p: int, q1: int, q2: int, pause: bool)
+    requires next_ok(b, p, q1, pause), next_ok(b, p, q2, pause),
+    ensures q1 == q2,
+{
+    if q1 < q2 { assert(is_lf(b[q1])); } else if q2 < q1 { assert(is_lf(b[q2])); }
+}
+pub proof fn lemma_prev_unique(b: Seq<u8>, p: int, q1: int, q2: int, pause: bool)
+    requires prev_ok(b, p, q1, pause), prev_ok(b, p, q2, pause),
+    ensures q1 == q2,
+{
+    if q1 < q2 { assert(is_lf(b[q2])); } else if q2 < q1 { assert(is_lf(b[q1])); }
+}
+
+/// the finders as spec functions (well defined because the witnesses are unique)
+pub open spec fn next_lb(b: Seq<u8>, p: int, pause: bool) -> Option<int> {
+    if exists|q: int| next_ok(b, p, q, pause) { Some(choose|q: int| next_ok(b, p, q, pause)) } else { None }
+}
+pub open spec fn prev_lb(b: Seq<u8>, p: int, pause: bool) -> Option<int> {
+    if exists|q: int| prev_ok(b, p, q, pause) { Some(choose|q: int| prev_ok(b, p, q, pause)) } else { None }
+}
+pub proof fn lemma_next_lb(b: Seq<u8>, p: int, pause: bool)
+    ensures
+        match next_lb(b, p, pause) { Some(q) => next_ok(b, p, q, pause), None => forall|q: int| !next_ok(b, p, q, pause) },
+        forall|q: int| #[trigger] next_ok(b, p, q, pause) ==> next_lb(b, p, pause) == Some(q),
+{
+    assert forall|q: int| #[trigger] next_ok(b, p, q, pause) implies next_lb(b, p, pause) == Some(q) by {
+        lemma_next_unique(b, p, q, choose|q: int| next_ok(b, p, q, pause), pause);
+    }
+}
+pub proof fn lemma_prev_lb(b: Seq<u8>, p: int, pause: bool)
+    ensures
+        match prev_lb(b, p, pause) { Some(q) => prev_ok(b, p, q, pause), None => forall|q: int| !prev_ok(b, p, q, pause) },
+        forall|q: int| #[trigger] prev_ok(b, p, q, pause) ==> prev_lb(b, p, pause) == Some(q),
+{
+    assert forall|q: int| #[trigger] prev_ok(b, p, q, pause) implies prev_lb(b, p, pause) == Some(q) by {
+        lemma_prev_unique(b, p, q, choose|q: int| prev_ok(b, p, q, pause), pause);
+    }
+}
 } // verus!
